@@ -35,7 +35,7 @@ func (c10) Assumptions() []string {
 }
 
 type c10Case struct {
-	Inputs  []string `json:"inputs"`   // H+
+	Inputs  []string `json:"inputs"` // H+
 	Failing []bool   `json:"is_failing"`
 	Depth   int      `json:"max_depth,omitempty"` // 0: the 200 used by the random sessions; -1: grol's default limit
 }
